@@ -18,8 +18,9 @@ def plan(tier):
                         dict(base, OB_E2E=1, DIR=d)))
         qs.append(q('badkey:%s' % k, '%s().setKey with %d bytes returns false; keySize/blockSize as documented' % (k, kl + 1), dict(base, OB_BADKEY=1, BADLEN=kl + 1), timeout=600))
         if tw:
-            for seq, what in ((1, 'setTweak(T1); setTweak(T2)'), (2, 'setTweak(T1); setTweak(NULL)'), (3, 'setTweak(T1); setTweak(NULL); setTweak(T2)')):
-                if tier == 'quick' and seq != 3 and not (seq == 2 and k == 'Skinny64_128_Tweaked'): continue      # quick: the longest history for every class
+            for seq, what in ((1, 'setTweak(T1); setTweak(T2)'), (2, 'setTweak(T1); setTweak(NULL)'), (3, 'setTweak(T1); setTweak(NULL); setTweak(T2)'), (4, 'setTweak(T1); setTweak(T2); setTweak(T3)')):
+                if tier == 'quick' and seq not in (3, 4) and not (seq == 2 and k == 'Skinny64_128_Tweaked'): continue
+                if tier == 'quick' and seq == 4 and k not in ('Skinny64_128_Tweaked', 'Skinny128_256_Tweaked'): continue      # quick: the longest history for every class
                 for d in ((0, 1) if tier == 'thorough' else (0,)):
                     qs.append(q('tweakseq:%s:seq%d:%s' % (k, seq, 'dec' if d else 'enc'), 'forall key, tweaks, block: %s().setKey ; %s ; %sBlock == C library with only the key and the latest tweak (NULL = all-zero)' % (k, what, 'decrypt' if d else 'encrypt'),
                                 dict(base, OB_TWSEQ=1, SEQ=seq, DIR=d)))
@@ -29,6 +30,10 @@ def plan(tier):
         for (n1, n2) in (((17, 20),) if tier == 'quick' else ((17, 20), (0, 33), (16, 16), (5, 44))):
             qs.append(q('ctr:%s:%d+%d' % (k, n1, n2), 'forall key, 16-byte IV (all carries, wrap-around), data: CTR<%s> setKey ; setIV ; encrypt(%d) ; encrypt(%d) == input xor E(iv), E(iv+1), ... with the C library cipher' % (k, n1, n2),
                         {'K': k, 'FAMILY': 128, 'KEYLEN': kl, 'TWEAKED': 0, 'OB_CTR': 1, 'N1': n1, 'N2': n2}, timeout=3600))
+    for (n1, nbig) in (() if tier == 'quick' else ((5, 4096 + 33), (0, 4096))):      # 15 min per query: thorough tier only
+        qs.append(q('ctr-big:%d+%d' % (n1, nbig), 'CTRCommon (the code of every CTR<T>) over a trivial 16-byte block cipher: setKey ; setIV ; encrypt(%d) ; encrypt(%d bytes in one request), arbitrary key, IV and data: every byte position gets its keystream byte (loop counters do not overflow)' % (n1, nbig),
+                    {'K': 'VhXor16', 'FAMILY': 128, 'KEYLEN': 16, 'TWEAKED': 0, 'OB_BIGCTR': 1, 'N1': n1, 'NBIG': nbig}, timeout=3600))
+        qs[-1].unwind = 9000; qs[-1].fsarray = 9000
     qs.append(q('ctr-rekey:Skinny128_128:5+20', 'forall keys K1, K2, IV, data: CTR<Skinny128_128> setKey(K1) ; setIV ; encrypt(5) ; setKey(K2) ; encrypt(20) == what the C library does for the same calls (the stream continues with the next counter block under K2)',
                 {'K': 'Skinny128_128', 'FAMILY': 128, 'KEYLEN': 16, 'TWEAKED': 0, 'OB_CTR': 1, 'REKEY': 1, 'N1': 5, 'N2': 20}, timeout=3600))
     return dict(queries=qs, level='translation_validation', pre=[],
